@@ -8,7 +8,8 @@ R8.2 closed forms: restraint term = sum((fixed[r1] - mobile[r2])**2); nearest-ne
      unrestrained fixed atoms of the row-wise minimum of the squared-distance matrix; penalty base 1.1 on all
      paths; exponent N_mobile - |restrained mobile atoms U nearest mobile atoms of unrestrained fixed atoms|;
      min and argmin over the same matrix and axis
-R8.3 dispatch is total and exclusive: no restraints / every fixed atom restrained / otherwise
+R8.3 dispatch is total and exclusive: no restraints / every fixed atom restrained / otherwise; "every fixed atom restrained" is
+     never recognised by comparing the number of atoms with the number of restraint pairs (duplicates)
 R8.4 the calculator keeps no module-level / class-level table between calls
 """
 from __future__ import annotations
